@@ -6,6 +6,7 @@ import (
 	"os"
 
 	"github.com/bytemare/secp256k1/internal/verif/ev"
+	"github.com/bytemare/secp256k1/internal/verif/prelude"
 	"github.com/bytemare/secp256k1/internal/verif/smallchk"
 	"github.com/bytemare/secp256k1/internal/verif/verifrt"
 )
@@ -20,6 +21,8 @@ func main() {
 		fmt.Fprintln(os.Stderr, "TOOL-ERROR: vsmall must be built in the small-field variant, not", verifrt.Variant)
 		os.Exit(2)
 	}
+
+	prelude.HostileCaller()
 
 	if os.Args[1] == "replay" {
 		os.Exit(smallchk.Replay(os.Args[2], os.Args[3]))
